@@ -10,43 +10,62 @@
 (*   Effective(k) = the value from Git's own configuration if it has one,  *)
 (*                  else the .lfsconfig value if k is Documented,           *)
 (*                  else nothing.                                          *)
-(* The module enumerates key class x spelling x where the .lfsconfig lives *)
-(* x whether Git's configuration also sets the key, and states the source  *)
-(* the effective value must come from; the harness observes it with        *)
-(* `git lfs env` or with sentinels (programs that leave a mark, listeners).*)
+(*                                                                         *)
+(* The .lfsconfig is a sequence of lines: the key under test with          *)
+(* neighbours before and after it taken from the documented classes.       *)
+(* config.readGitConfig walks the lines of each source in a loop; whether  *)
+(* a line is kept is decided per line (`allowed`), so the neighbours must  *)
+(* have no influence.  Stateful = TRUE is the variant where that decision  *)
+(* survives from one line to the next (a realistic slip: the flag hoisted  *)
+(* out of the loop); it must violate OnlyDocumented.                       *)
 (***************************************************************************)
 EXTENDS Integers, Sequences, FiniteSets, TLC, Json, CSV, IOUtils
 
-CONSTANTS Keys,        \* set of [name, doc]: key classes with "documented as safe" flag
-          Spellings, Locations, Emit
+CONSTANTS Keys,        \* set of [name, doc, pat]: key classes; doc: documented as safe; pat: allow-listed by pattern rather than by name
+          Neighbours,  \* set of such records used as the other lines of the file
+          MaxBefore, MaxAfter,
+          Spellings, Locations, Emit, Stateful, Thin
 
-VARIABLES key, spelling, location, alsoGit, lfsconfig, gitconfig, effective
-vars == <<key, spelling, location, alsoGit, lfsconfig, gitconfig, effective>>
+VARIABLES key, before, after, spelling, location, alsoGit, i, allowed, kept, gitconfig, effective
+vars == <<key, before, after, spelling, location, alsoGit, i, allowed, kept, gitconfig, effective>>
+
+SeqsUpTo(S, n) == UNION {[1..k -> S] : k \in 0..n}
+File == before \o <<key>> \o after
+At   == Len(before) + 1                           \* position of the key under test
 
 Init == /\ key \in Keys /\ spelling \in Spellings /\ location \in Locations /\ alsoGit \in BOOLEAN
-        /\ lfsconfig = "unread" /\ gitconfig = "unread" /\ effective = "undecided"
+        /\ before \in SeqsUpTo(Neighbours, MaxBefore) /\ after \in SeqsUpTo(Neighbours, MaxAfter)
+        \* Thin: neighbours are only combined with the plain spelling/location/no overlay
+        /\ (Thin /\ (before # <<>> \/ after # <<>>)) => (spelling = "lower" /\ location = "worktree" /\ ~alsoGit)
+        /\ i = 1 /\ allowed = FALSE /\ kept = {} /\ gitconfig = "unread" /\ effective = "undecided"
 
-\* the three steps of config.readGitConfig: sources are read, the .lfsconfig source is filtered, Git's overlay wins
-ReadSources == /\ lfsconfig = "unread"
-               /\ lfsconfig' = "V1" /\ gitconfig' = IF alsoGit THEN "V2" ELSE "none"
-               /\ UNCHANGED <<key, spelling, location, alsoGit, effective>>
-FilterSafe  == /\ lfsconfig = "V1" /\ effective = "undecided"
-               /\ lfsconfig' = IF key.doc THEN "V1" ELSE "dropped"
-               /\ effective' = "filtered"
-               /\ UNCHANGED <<key, spelling, location, alsoGit, gitconfig>>
-Overlay     == /\ effective = "filtered"
-               /\ effective' = IF gitconfig = "V2" THEN "git" ELSE IF lfsconfig = "V1" THEN "lfsconfig" ELSE "none"
-               /\ UNCHANGED <<key, spelling, location, alsoGit, lfsconfig, gitconfig>>
-Next == ReadSources \/ FilterSafe \/ Overlay
+\* one iteration of the loop over the lines of the OnlySafeKeys source
+Line == /\ i <= Len(File) /\ effective = "undecided"
+        /\ LET ln == File[i]
+               a0 == IF Stateful THEN allowed ELSE FALSE        \* allowed := !gc.OnlySafeKeys
+               a1 == a0 \/ ln.pat                               \* *.access / remote.<name>.lfsurl
+           IN /\ allowed' = a1
+              /\ kept' = IF a1 \/ ln.doc THEN kept \cup {i} ELSE kept   \* !allowed && keyIsUnsafe(key) => ignored
+        /\ i' = i + 1
+        /\ UNCHANGED <<key, before, after, spelling, location, alsoGit, gitconfig, effective>>
+
+\* Git's own sources are read after it and shadow it
+Overlay == /\ i > Len(File) /\ effective = "undecided"
+           /\ gitconfig' = IF alsoGit THEN "V2" ELSE "none"
+           /\ effective' = IF alsoGit THEN "git" ELSE IF At \in kept THEN "lfsconfig" ELSE "none"
+           /\ UNCHANGED <<key, before, after, spelling, location, alsoGit, i, allowed, kept>>
+Next == Line \/ Overlay
 Spec == Init /\ [][Next]_vars
 
 Decided == effective \in {"git", "lfsconfig", "none"}
 \* C11
-OnlyDocumented == (Decided /\ effective = "lfsconfig") => key.doc
+OnlyDocumented == \A j \in kept : File[j].doc
 GitWins        == (Decided /\ alsoGit) => effective = "git"
-\* neither spelling nor location is an argument of the outcome
+\* neither spelling, location nor the other lines of the file are an argument of the outcome
 Independent    == Decided => effective = (IF alsoGit THEN "git" ELSE IF key.doc THEN "lfsconfig" ELSE "none")
 
-Case == [key |-> key.name, documented |-> key.doc, spelling |-> spelling, location |-> location, alsoGit |-> alsoGit, expect |-> effective]
+Names(s) == [j \in DOMAIN s |-> s[j].name]
+Case == [key |-> key.name, documented |-> key.doc, before |-> Names(before), after |-> Names(after),
+         spelling |-> spelling, location |-> location, alsoGit |-> alsoGit, expect |-> effective]
 EmitState == (Emit /\ Decided) => CSVWrite("%1$s", <<ToJson(Case)>>, IOEnv.OUT)
 =============================================================================
